@@ -25,7 +25,56 @@ let parse_class (m : bool) (ts : jstoken list option) : string list =
                     hex_of_bstr (List.concat (List.map (fun n -> n @ [n_of_int 10]) (prog_funs p)))]
        | None -> ["parsefail"; "#" ^ string_of_int (fail_index m ts); "#" ^ string_of_int (List.length ts)])
 
+(* ---- random programs of the grammar: a random walk of the recogniser over a token alphabet ---- *)
+let punct_text = function
+  | PLPar -> "(" | PRPar -> ")" | PLBrk -> "[" | PRBrk -> "]" | PLBrc -> "{" | PRBrc -> "}"
+  | PDot -> "." | PSemi -> ";" | PComma -> "," | PColon -> ":" | PQuest -> "?" | PAssign -> "=" | PPlusEq -> "+="
+  | PPlusPlus -> "++" | PBang -> "!" | PMinus -> "-" | PBin s -> string_of_bstr s
+let tok_text = function
+  | TId s -> string_of_bstr s | TKw (_, s) -> string_of_bstr s | TNum s -> string_of_bstr s | TStr -> "'s'" | TP p -> punct_text p
+let alphabet : jstoken list =
+  let id s = tok_of_ident (bstr_of_string s) in
+  List.map id ["a"; "b"; "c"; "opt_data"; "opt_sb"; "opt_ijData"; "from"; "soy"; "$$f"; "x_1"; "of"; "get"; "async"; "undefined"]
+  @ List.map (fun (s, _) -> tok_of_ident s) kw_table
+  @ [TNum (bstr_of_string "0"); TNum (bstr_of_string "5"); TNum (bstr_of_string "1.5"); TNum (bstr_of_string "1e3"); TStr]
+  @ List.map (fun p -> TP p) [PLPar; PRPar; PLBrk; PRBrk; PLBrc; PRBrc; PDot; PSemi; PComma; PColon; PQuest; PAssign; PPlusEq; PPlusPlus; PBang; PMinus]
+  @ List.map (fun s -> TP (PBin (bstr_of_string s))) ["*"; "/"; "%"; "+"; "=="; "!="; "<"; ">"; "<="; ">="; "&&"; "||"]
+let closers : jstoken list =
+  [TP PRPar; TP PRBrk; TP PRBrc; TP PSemi; TP PColon; tok_of_ident (bstr_of_string "a")]
+let random_program (m : bool) (seed : int) (steps : int) : string option =
+  let st = ref (seed land 0x3fffffff) in
+  let rnd n = st := (!st * 1103515245 + 12345) land 0x3fffffff; (!st lsr 8) mod n in
+  let fresh = ref 0 in
+  let shuffle l = let a = Array.of_list l in
+    for i = Array.length a - 1 downto 1 do let j = rnd (i + 1) in let t = a.(i) in a.(i) <- a.(j); a.(j) <- t done; Array.to_list a in
+  let buf = Buffer.create 256 in
+  let rec first md stk = function
+    | [] -> None
+    | t :: r -> (match js_step m md stk t with Some ((md', stk'), _) -> Some (t, md', stk') | None -> first md stk r) in
+  let rec go md stk i =
+    if i > steps + 300 then None
+    else match md, stk with
+      | MStmt _, [] when i >= steps -> Some (Buffer.contents buf)
+      | _ ->
+        (* a declared name is always fresh: duplicate declarations are early errors outside a token grammar *)
+        let cands =
+          (match md with
+           | MFunName | MImportName -> incr fresh; [TId (bstr_of_string (Printf.sprintf "f%d" !fresh))]
+           | _ -> if i >= steps then closers @ shuffle alphabet else shuffle alphabet) in
+        (match first md stk cands with
+         | None -> None
+         | Some (t, md', stk') -> Buffer.add_string buf (tok_text t); Buffer.add_char buf (if rnd 8 = 0 then '\n' else ' '); go md' stk' (i + 1)) in
+  go (MStmt false) [] 0
+
 let () =
+  (* jsrandom <0|1 module> <#seed> <#steps>  ->  ok <hex text> | none *)
+  register "jsrandom" (fun a ->
+    match a with
+    | [m; seed; steps] ->
+        (match random_program (int_field m = 1) (int_field seed) (int_field steps) with
+         | Some s -> ["ok"; hex_of_bstr (bstr_of_string s)]
+         | None -> ["none"])
+    | _ -> failwith "jsrandom: arity");
   (* jsparse <0|1 module> <hex bytes>  ->  ok <#tokens> <balanced> <hex function names, LF-terminated> | lexfail | parsefail <#index> <#tokens> *)
   register "jsparse" (fun a ->
     match a with
